@@ -122,7 +122,7 @@ def gen_tree(rng, max_entries=12, max_depth=3, hostile=0.2, empty_dirs=True, uni
 
 
 def tree_files(tree):
-    return sorted(k for k, v in tree.items() if v["t"] == "f")
+    return sorted(k for k, v in tree.items() if v["t"] in ("f", "l"))
 
 
 def tree_dirs(tree):
